@@ -337,6 +337,10 @@ type tqSelResult struct {
 
 // tqAggRelTol: an aggregate closer than this (relative) to the comparison value is don't-care
 // (summation order of floats is not part of the property).
+// TQSpanCap is the number of spans qryn shows per trace at most (groupArray(100)(span_id) in
+// index_groupby.go / complex_or.go); counts and aggregates are computed over all matching spans.
+const TQSpanCap = 100
+
 const tqAggRelTol = 1e-9
 
 func tqEvalAgg(a *TQAgg, spans []*TQSpan) (TQTri, error) {
@@ -625,6 +629,14 @@ func TQCheckSearchResult(ref []TQTraceResult, limit int, got map[string][]string
 		have := map[string]bool{}
 		for _, s := range gs {
 			have[s] = true
+		}
+		if len(t.Spans) > TQSpanCap {
+			// qryn shows at most 100 spans of a trace (groupArray(100) in every stage): which
+			// 100 of the matching spans is not determined, their number is
+			if len(gs) != TQSpanCap {
+				return fmt.Sprintf("trace %s: %d spans returned, %d match (a trace shows %d spans at most)", id, len(gs), len(t.Spans), TQSpanCap)
+			}
+			continue
 		}
 		for _, s := range t.Must {
 			if !have[s] {
